@@ -4,10 +4,11 @@
      <maxDepth|-1> <ncalls> ( <api> <k> <kind> <beh> )*
 
   api: RP | CA n | CO n | TR | TG | ER.   k: 0 = no fault, else the k-th probe of this call faults; kind: t | i.
-  beh (prefix form): K | S a b | P id | T | I | Ft n b | Fc n b | Fn n b | Fo b | FO ret b | Fr b | Fb b
+  beh (prefix form): K | S a b | P id | T | I | Ft n b | Fc n b | Fn n b | Fo b | FO ret b | Fr b | Fb b | Fp b
                    | Y hc hf body handler fin | G n b | At b | Aw b | Ap b | Bt b | Bw b | Bp b | J b
   Answer: per call  <outcome>|<trace>|<state>  joined by " ; ", where trace = "id:c,t,i,r …" and
-  state = sp,sb,prgNil,stashGlobal,privNil,callLen,tryLen,iterLen,refLen,jobs,interrupted.
+  state = sp,sb,prgNil,stashGlobal,privNil,callLen,tryLen,iterLen,refLen,jobs,interrupted,privDepth,
+  curAsyncRunnerNil (the model has no async runner: constant 1),newTargetNil,args.
 -/
 import GojaModel.Base.Proto
 import GojaModel.C03.Model
@@ -15,7 +16,7 @@ import GojaModel.C03.Model
 namespace GojaModel.C03.Driver
 open GojaModel.C03
 
-def theFn : FnInfo := ⟨1, [5, 0], none⟩
+def theFn : FnInfo := ⟨1, [5, 0], []⟩
 
 def natOf (s : String) : Nat := s.toNat?.getD 0
 
@@ -51,6 +52,9 @@ def parseBeh : Nat → List String → Option (Beh × List String)
     | "Fr" :: r => do
       let (b, r1) ← parseBeh fuel r
       pure (.frame .ref .skip b, r1)
+    | "Fp" :: r => do
+      let (b, r1) ← parseBeh fuel r
+      pure (.frame .priv .skip b, r1)
     | "Fb" :: r => do
       let (b, r1) ← parseBeh fuel r
       pure (.frame .block .skip b, r1)
@@ -103,9 +107,9 @@ def b01 (b : Bool) : String := if b then "1" else "0"
 
 def showState (s : Vm) : String :=
   ",".intercalate [toString s.sp, toString s.sb, b01 s.prg.isNone, b01 (s.stash == globalStash),
-    b01 s.privEnv.isNone, toString s.callStack.length, toString s.tryStack.length,
+    b01 s.privEnv.isEmpty, toString s.callStack.length, toString s.tryStack.length,
     toString s.iterStack.length, toString s.refStack.length, toString s.jobQueue.length,
-    b01 s.interrupted]
+    b01 s.interrupted, toString s.privEnv.length, "1", b01 (s.newTarget == 0), toString s.args]
 
 def showTrace (t : List Obs) : String :=
   " ".intercalate (t.map fun o => s!"{o.id}:{o.callLen},{o.tryLen},{o.iterLen},{o.refLen}")
